@@ -1,6 +1,7 @@
 package rules
 
 import (
+	"fmt"
 	"go/types"
 	"go/token"
 	"strings"
@@ -13,6 +14,7 @@ import (
 func init() { register("C05", checkC05) }
 
 func checkC05(P *core.Program, R *core.Report) {
+	defer checkKeeperArgsNotNil(P, R)
 	R.Explanation = "Only the last sentence of the statement (an exit can never take a reserve to zero or burn all shares) and its guards are decided; the value inequalities (minted shares ≤ deposit value, per-share value non-decreasing, rounding allowances) are inequalities between fixed-point results and are not decidable here. " +
 		"Decided by must-hold facts: Keeper.ExitPool reaches Pool.ExitPool / ApplyExitPoolStateChange only with shareIn < totalShares and 0 < shareIn; CalcExitPool's success exits carry exitingShares < totalShares and its all-asset loop adds a coin only with 0 < exitAmt < reserve; " +
 		"processExitPool hands UpdatePoolAssetBalances the value GetTotalPoolLiquidity().Sub(exitingCoins) only under len(balances) == len(PoolAssets) (completeness guard: Coins.Sub drops a zeroed denom — the repair of F-05) and lowers TotalShares by exactly exitingShares; UpdatePoolAssetBalance writes a balance only with 0 < amount."
@@ -237,4 +239,53 @@ func isAmmPoolRecord(o core.Origin) bool {
 	}
 	n := core.AsNamed(t)
 	return n != nil && n.Obj().Name() == "Pool" && n.Obj().Pkg() != nil && strings.HasSuffix(n.Obj().Pkg().Path(), "x/amm/types")
+}
+
+// checkKeeperArgsNotNil: a call that hands the nil constant to a parameter whose type is a
+// keeper interface of the amm package (AccountedPoolKeeper, OracleKeeper, …) silently
+// switches the callee to its fall-back (raw pool book instead of the accounted balance, no
+// oracle): LP shares and swaps would be valued on a different ledger than the rest of the
+// same operation.  Decided for every consensus-reachable call site.
+func checkKeeperArgsNotNil(P *core.Program, R *core.Report) {
+	subjects := P.Reach(P.FindRoots().Consensus())
+	n := 0
+	for _, fn := range P.Funcs {
+		if !subjects[fn] || core.IsGeneratedOrAux(P.File(fn.Pos())) || !strings.HasPrefix(core.PkgRel(fn), "x/amm/") {
+			continue // the amm's own pricing code; other modules may ask for the raw book on purpose
+		}
+		for _, c := range core.Calls(fn) {
+			cc := c.Common()
+			var sig *types.Signature
+			if cc.IsInvoke() {
+				sig, _ = cc.Method.Type().(*types.Signature)
+			} else if sc := cc.StaticCallee(); sc != nil {
+				sig = sc.Signature
+			}
+			if sig == nil {
+				continue
+			}
+			off := 0
+			if !cc.IsInvoke() && sig.Recv() != nil {
+				off = 1
+			}
+			for i := 0; i < sig.Params().Len() && i+off < len(cc.Args); i++ {
+				pt := sig.Params().At(i).Type()
+				nt := core.AsNamed(pt)
+				if nt == nil || nt.Obj().Pkg() == nil || !strings.HasSuffix(nt.Obj().Name(), "Keeper") {
+					continue
+				}
+				if _, isIface := nt.Underlying().(*types.Interface); !isIface || !strings.HasPrefix(nt.Obj().Pkg().Path(), core.Module) {
+					continue
+				}
+				n++
+				k, isConst := cc.Args[i+off].(*ssa.Const)
+				isNil := isConst && k.Value == nil
+				if isNil {
+					R.Add("C05-keeper-arg", P.Key(fn), "nil "+nt.Obj().Name()+" → "+P.CalleeKey(cc), P.Pos(P.InstrPos(c)), false,
+						"a keeper interface parameter receives nil: the callee falls back to a different ledger than the rest of the operation")
+				}
+			}
+		}
+	}
+	R.Add("C05-keeper-arg", "-", "keeper interface arguments", "-", n > 0, fmt.Sprintf("%d keeper-interface arguments at consensus-reachable call sites, none nil", n))
 }
